@@ -30,6 +30,18 @@ Lemma sprint_foreach ind vd vlist vlen vidx e body hasie ie : sprint ind (JSFore
     ++ (sp_ind ind1 ++ [CText t_rbrace] ++ [CText t_nl])
     ++ (if hasie then (sp_ind ind ++ [CText t_else_block] ++ [CText t_nl]) ++ bprint (S ind) ie ++ (sp_ind ind ++ [CText t_rbrace] ++ [CText t_nl]) else []).
 Proof. reflexivity. Qed.
+Lemma sprint_forrange ind vd vinit vstep vlen vidx ei es el body hasie ie : sprint ind (JSForRange vd vinit vstep vlen vidx ei es el body hasie ie)
+  = let ind1 := if hasie then S ind else ind in
+    (sp_ind ind ++ ([CText t_var; CName vinit; CText t_eq] ++ jprint ei ++ [CText t_semi]) ++ [CText t_nl])
+    ++ (sp_ind ind ++ ([CText t_var; CName vstep; CText t_eq] ++ jprint es ++ [CText t_semi]) ++ [CText t_nl])
+    ++ (sp_ind ind ++ ([CText t_var; CName vlen; CText t_count1] ++ jprint el ++ [CText t_minus; CName vinit; CText t_count2; CName vstep; CText t_count3]) ++ [CText t_nl])
+    ++ (if hasie then sp_ind ind ++ [CText t_if_open; CName vlen; CText t_gt0] ++ [CText t_nl] else [])
+    ++ (sp_ind ind1 ++ [CText t_for_open; CName vidx; CText t_eq0_semi; CName vidx; CText t_lt; CName vlen; CText t_semi_sp; CName vidx; CText t_plusplus] ++ [CText t_nl])
+    ++ (sp_ind (S ind1) ++ ([CText t_var; CName vd; CText t_eq] ++ [CName vinit; CText t_plus; CName vidx; CText t_times; CName vstep] ++ [CText t_semi]) ++ [CText t_nl])
+    ++ bprint (S ind1) body
+    ++ (sp_ind ind1 ++ [CText t_rbrace] ++ [CText t_nl])
+    ++ (if hasie then (sp_ind ind ++ [CText t_else_block] ++ [CText t_nl]) ++ bprint (S ind) ie ++ (sp_ind ind ++ [CText t_rbrace] ++ [CText t_nl]) else []).
+Proof. reflexivity. Qed.
 Lemma bprint_cons ind s r : bprint ind (JBCons s r) = sprint ind s ++ bprint ind r. Proof. reflexivity. Qed.
 Lemma lprint_else ind b : lprint ind (JLElse b) = [CText t_else; CText t_brace_nl] ++ bprint (S ind) b ++ sp_ind ind ++ [CText t_rbrace].
 Proof. reflexivity. Qed.
@@ -49,6 +61,8 @@ Lemma swf_letc lv name body : swf lv (SLetC name body) = is_ident name && bwf lv
 Lemma swf_if lv c th rest : swf lv (SIf c th rest) = cwf lv c && bwf lv th && ewf lv rest. Proof. reflexivity. Qed.
 Lemma swf_switch lv v cs : swf lv (SSwitch v cs) = cwf lv v && kwf lv cs. Proof. reflexivity. Qed.
 Lemma swf_for lv x e body hasie ie : swf lv (SFor x e body hasie ie) = is_ident x && cwf lv e && bwf (x :: lv) body && bwf lv ie. Proof. reflexivity. Qed.
+Lemma swf_forrange lv x a1 rest body hasie ie : swf lv (SForRange x a1 rest body hasie ie)
+  = is_ident x && (Nat.leb (length rest) 2) && cwf lv a1 && forallb (cwf lv) rest && bwf (x :: lv) body && bwf lv ie. Proof. reflexivity. Qed.
 Lemma bwf_cons lv s r : bwf lv (BCons s r) = swf lv s && bwf lv r. Proof. reflexivity. Qed.
 Lemma ewf_else lv b : ewf lv (EElse b) = bwf lv b. Proof. reflexivity. Qed.
 Lemma ewf_elif lv c th rest : ewf lv (EElif c th rest) = cwf lv c && bwf lv th && ewf lv rest. Proof. reflexivity. Qed.
@@ -79,6 +93,33 @@ Lemma push_for_each_eq x st :
         set_scope (loop_frame x (j_n st + 1) :: j_scope st) (j_n st + 1) st).
 Proof.
   unfold jsc_push_for_each, jbind, jget, jmod, jret, loop_frame, jsc_name. rewrite <- !app_assoc. reflexivity.
+Qed.
+
+Lemma push_for_range_eq x st :
+  jsc_push_for_range x st
+  = Ok ((jsc_name x (j_n st + 1), jsc_name (x ++ t_init) (j_n st + 1), jsc_name (x ++ t_step) (j_n st + 1), jsc_name (x ++ t_limit) (j_n st + 1),
+         jsc_name (x ++ t_index) (j_n st + 1)),
+        set_scope (loop_frame x (j_n st + 1) :: j_scope st) (j_n st + 1) st).
+Proof.
+  unfold jsc_push_for_range, jbind, jget, jmod, jret, loop_frame, jsc_name. rewrite <- !app_assoc. reflexivity.
+Qed.
+
+(* the arguments of range() as the generator orders them, on nodes and on MiniJS expressions *)
+Lemma range_args_nodes lv sc a1 rest F : (length rest <= 2)%nat -> cwf lv a1 = true -> forallb (cwf lv) rest = true ->
+  (Nat.max (cdepth a1) (cdepths rest) < F)%nat ->
+  exists ci cl cs,
+    match cnode a1 :: map cnode rest with
+    | [l] => Some (NInt 0 0, l, NInt 0 1) | [i; l] => Some (i, l, NInt 0 1) | [i; l; s] => Some (i, l, s) | _ => None
+    end = Some (cnode ci, cnode cl, cnode cs)
+    /\ range_args (JENum 0) (JENum 1) (map (cgen sc) (a1 :: rest)) = Some (cgen sc ci, cgen sc cl, cgen sc cs)
+    /\ cwf lv ci = true /\ cwf lv cl = true /\ cwf lv cs = true
+    /\ (cdepth ci < F)%nat /\ (cdepth cl < F)%nat /\ (cdepth cs < F)%nat.
+Proof.
+  intros Hlen W1 Wr Hd. assert (Hp : (1 <= cdepth a1)%nat) by (destruct a1; cbn [cdepth]; lia).
+  destruct rest as [|e2 [|e3 [|e4 r]]]; cbn [length] in Hlen; try lia; cbn [forallb cdepths fold_right] in *.
+  - exists (CInt 0), a1, (CInt 1). cbn. repeat split; auto; lia.
+  - apply andb_prop in Wr. destruct Wr as [W2 _]. exists a1, e2, (CInt 1). cbn. repeat split; auto; lia.
+  - apply andb_prop in Wr. destruct Wr as [W2 Wr]. apply andb_prop in Wr. destruct Wr as [W3 _]. exists a1, e2, e3. cbn. repeat split; auto; lia.
 Qed.
 
 Section StmtChunks.
@@ -374,6 +415,64 @@ Proof.
       fold vd vlist vlen vidx. eapply gres_eq.
       * gbind y1 Y1. apply gres_sln; exact H2.
         gbind y2 Y2. apply gres_sln; exact Y1.
+        gbind y3 Y3. apply gres_ret; exact Y2.
+        gbind y4 Y4. apply gres_sln; exact Y3.
+        gbind y5 Y5. apply gres_inc; exact Y4.
+        gbind y6 Y6. apply gres_sln; exact Y5.
+        gbind y7 Y7. apply (gen_nlist body (x :: lv) F y6 jb n1 (S i) bf a (loop_frame x (n + 1) :: sc) (n + 1) IHb ltac:(lia) Hlv2 Hwb Y6 E1).
+        gbind y8 Y8. apply gres_dec; exact Y7.
+        gbind y9 Y9. apply gres_sln; exact Y8.
+        gbind y10 Y10. apply (gres_pop y9 i bf a _ sc n1 Y9).
+        apply gres_ret; exact Y10.
+      * chunks_eq.
+  - (* for over range() *) intros x a1 rest body IHb hasie ie IHi lv f st j sc' n' i bf a sc n Hf Hn Hlv Hwf Hs Eg. rewrite sgen_forrange in Eg.
+    destruct (bgen a bf ([] :: loop_frame x (n + 1) :: sc) (n + 1) body) as [jb n1] eqn:E1.
+    rewrite swf_forrange in Hwf. apply andb_prop in Hwf. destruct Hwf as [Hwf Hwi]. apply andb_prop in Hwf. destruct Hwf as [Hwf Hwb].
+    apply andb_prop in Hwf. destruct Hwf as [Hwf Hwr]. apply andb_prop in Hwf. destruct Hwf as [Hwf Hw1]. apply andb_prop in Hwf. destruct Hwf as [Hid Hlen].
+    apply Nat.leb_le in Hlen.
+    rewrite sdepth_forrange in Hf. destruct f as [|F]; [lia|]. rewrite snode_forrange.
+    destruct (range_args_nodes lv sc a1 rest F Hlen Hw1 Hwr ltac:(lia)) as (ci & cl & cs & Hnodes & Hra & Wi & Wl & Ws & Di & Dl & Ds).
+    rewrite Hra in Eg.
+    eapply gres_walk; [reflexivity|exact Hs|]. intros st1 H1. cbn [jwalk_node].
+    replace (bstr_eqb jn_range jn_range) with true by reflexivity. unfold visit_for_range. rewrite Hnodes.
+    pose proof H1 as (I1 & B1 & A1 & S1 & N1).
+    eapply gres_step; [apply (jblock_expr ci lv F st1); [exact Di|exact Wi|rewrite S1; exact Hlv]|reflexivity|].
+    eapply gres_step; [apply (jblock_expr cs lv F st1); [exact Ds|exact Ws|rewrite S1; exact Hlv]|reflexivity|].
+    eapply gres_step; [apply (jblock_expr cl lv F st1); [exact Dl|exact Wl|rewrite S1; exact Hlv]|reflexivity|]. rewrite S1.
+    eapply gres_step; [apply push_for_range_eq|destruct st1; reflexivity|]. rewrite S1, N1. cbn iota beta.
+    set (vd := jsc_name x (n + 1)). set (vinit := jsc_name (x ++ t_init) (n + 1)). set (vstep := jsc_name (x ++ t_step) (n + 1)).
+    set (vlen := jsc_name (x ++ t_limit) (n + 1)). set (vidx := jsc_name (x ++ t_index) (n + 1)).
+    set (st2 := set_scope (loop_frame x (n + 1) :: sc) (n + 1) st1).
+    assert (H2 : shape st2 i bf a (loop_frame x (n + 1) :: sc) (n + 1)) by (subst st2; destruct st1; cbn in *; repeat split; assumption).
+    clearbody st2.
+    pose proof (lvok_frame lv sc x (n + 1) Hid Hlv) as Hlv2.
+    unfold visit_loop.
+    destruct hasie.
+    + destruct (bgen a bf ([] :: sc) n1 ie) as [ji n2] eqn:E2. inversion Eg; subst j sc' n'. clear Eg. rewrite sprint_forrange. cbn zeta iota.
+      fold vd vinit vstep vlen vidx. eapply gres_eq.
+      * gbind y1 Y1. apply gres_sln; exact H2.
+        gbind y1b Y1b. apply gres_sln; exact Y1.
+        gbind y2 Y2. apply gres_sln; exact Y1b.
+        gbind y3 Y3. { gbind z1 Z1. apply gres_sln; exact Y2. apply gres_inc; exact Z1. }
+        gbind y4 Y4. apply gres_sln; exact Y3.
+        gbind y5 Y5. apply gres_inc; exact Y4.
+        gbind y6 Y6. apply gres_sln; exact Y5.
+        gbind y7 Y7. apply (gen_nlist body (x :: lv) F y6 jb n1 (S (S i)) bf a (loop_frame x (n + 1) :: sc) (n + 1) IHb ltac:(lia) Hlv2 Hwb Y6 E1).
+        gbind y8 Y8. apply gres_dec; exact Y7.
+        gbind y9 Y9. apply gres_sln; exact Y8.
+        gbind y10 Y10. apply (gres_pop y9 (S i) bf a _ sc n1 Y9).
+        gbind y11 Y11. apply gres_dec; exact Y10.
+        gbind y12 Y12. apply gres_sln; exact Y11.
+        gbind y13 Y13. apply gres_inc; exact Y12.
+        gbind y14 Y14. apply (gen_nlist ie lv F y13 ji n2 (S i) bf a sc n1 IHi ltac:(lia) Hlv Hwi Y13 E2).
+        gbind y15 Y15. apply gres_dec; exact Y14.
+        apply gres_sln; exact Y15.
+      * chunks_eq.
+    + inversion Eg; subst j sc' n'. clear Eg. rewrite sprint_forrange. cbn zeta iota.
+      fold vd vinit vstep vlen vidx. eapply gres_eq.
+      * gbind y1 Y1. apply gres_sln; exact H2.
+        gbind y1b Y1b. apply gres_sln; exact Y1.
+        gbind y2 Y2. apply gres_sln; exact Y1b.
         gbind y3 Y3. apply gres_ret; exact Y2.
         gbind y4 Y4. apply gres_sln; exact Y3.
         gbind y5 Y5. apply gres_inc; exact Y4.
